@@ -304,7 +304,10 @@ def main():
     if out:
         os.makedirs(os.path.dirname(out), exist_ok=True)
         old = open(out).read() if os.path.exists(out) else None
-        if old != lean: open(out, "w").write(lean)
+        if old != lean:
+            tmp = out + ".tmp%d" % os.getpid()      # never leave a half-written table behind
+            with open(tmp, "w") as f: f.write(lean)
+            os.replace(tmp, out)
     rep = {"sites": [{k: v[k] for k in ("file", "func", "line", "name", "kind", "walk", "fp", "class", "why", "auto", "text")} for v in sites],
            "roundtrip_ok": rt_ok, "stale_manual_entries": stale,
            "by_class": {c: sum(1 for v in sites if v["class"] == c) for c in CLASSES}}
